@@ -377,7 +377,9 @@ def mon_C04(s):
                             fired = True
                     if not fired:
                         out.append(V("failed workflow offers %s although no fail command fired beside it" % o["id"], i))
-        if op["op"] == "report" and raised(r):
+        # a late report is one for an execution that exists (a report for a task the workflow never
+        # had, or never ran on that route, is malformed input and is rejected by design)
+        if op["op"] == "report" and raised(r) and "%s__r%s" % (op["task"], op["route"]) in ((r.get("state") or {}).get("tasks") or {}):
             out.append(V("late report raised %s in terminal status %s" % (raised(r), term), i,
                          "D5b" if raised(r) in ("KeyError", "TypeError", "IndexError") and rearrival_region(s, i) else None))
     return out
